@@ -112,14 +112,22 @@ pub open spec fn up_climb<Op>(tb: UpTable<Op>, s: Seq<UTok<Op>>, lhs: UT<Op>, j:
 }
 
 // ---- the theorem ----------------------------------------------------------------------------------------------------------------------
+// (opaque: the quantifier stays out of the contexts of the lemmas below; they use lemma_up_at / lemma_up_split / lemma_up_self)
+#[verifier::opaque]
 pub open spec fn up_matches<Op>(s: Seq<UTok<Op>>, i: int, x: Seq<UTok<Op>>) -> bool { 0 <= i && i + x.len() <= s.len() && forall|k: int| 0 <= k < x.len() ==> s[i + k] == #[trigger] x[k] }
 pub proof fn lemma_up_split<Op>(s: Seq<UTok<Op>>, i: int, a: Seq<UTok<Op>>, b: Seq<UTok<Op>>)
     requires up_matches(s, i, a + b)
     ensures up_matches(s, i, a), up_matches(s, i + a.len(), b)
 {
+    reveal(up_matches);
     assert forall|k: int| 0 <= k < a.len() implies s[i + k] == #[trigger] a[k] by { assert((a + b)[k] == a[k]); }
     assert forall|k: int| 0 <= k < b.len() implies s[i + a.len() + k] == #[trigger] b[k] by { assert((a + b)[a.len() + k] == b[k]); }
 }
+pub proof fn lemma_up_at<Op>(s: Seq<UTok<Op>>, i: int, x: Seq<UTok<Op>>, k: int)
+    requires up_matches(s, i, x), 0 <= k < x.len()
+    ensures 0 <= i, i + x.len() <= s.len(), s[i + k] == x[k]
+{ reveal(up_matches); }
+pub proof fn lemma_up_self<Op>(x: Seq<UTok<Op>>) ensures up_matches(x, 0, x) { reveal(up_matches); }
 // the tree can stand WITHOUT parentheses where operators of precedence >= m are being collected
 pub open spec fn up_bare_at<Op>(tb: UpTable<Op>, t: UT<Op>, m: int) -> bool { match t { UT::Atom(_) => true, UT::Bin(op, _, _) => (tb.prec)(op) >= m, UT::Not(_) => true, UT::Tern(op, _, _, _) => (tb.prec)(op) >= m } }
 // the token after the tree does not reach into it: end of input, `)`, or an operator that binds no tighter than the tree's top operator
@@ -138,7 +146,7 @@ pub proof fn lemma_up_main<Op>(tb: UpTable<Op>, t: UT<Op>, s: Seq<UTok<Op>>, i: 
 {
     lemma_up_len(tb, t);
     match t {
-        UT::Atom(a) => { assert(s[i] == up_print(tb, t)[0]); }
+        UT::Atom(a) => { lemma_up_at(s, i, up_print(tb, t), 0); }
         UT::Bin(_, _, _) => { lemma_up_case_bin(tb, t, s, i, m); }
         UT::Tern(_, _, _, _) => { lemma_up_case_tern(tb, t, s, i, m); }
         UT::Not(_) => { lemma_up_case_not(tb, t, s, i, m); }
@@ -152,13 +160,14 @@ pub proof fn lemma_up_case_bin<Op>(tb: UpTable<Op>, t: UT<Op>, s: Seq<UTok<Op>>,
     lemma_up_len(tb, t);
     match t {
         UT::Bin(op, l, r) => {
+            lemma_up_at(s, i, up_print(tb, t), 0);   // bounds: 0 <= i, the tree lies within s
             let wl = up_wrap((tb.dl)(*l, op), up_print(tb, *l));
             let wr = up_wrap((tb.dr)(*r, op), up_print(tb, *r));
             assert(up_print(tb, t) == wl + seq![UTok::O(op)] + wr);
             lemma_up_split(s, i, wl + seq![UTok::O(op)], wr);
             lemma_up_split(s, i, wl, seq![UTok::O(op)]);
             let j = i + wl.len();
-            assert(s[j] == seq![UTok::O(op)][0]);
+            lemma_up_at(s, j, seq![UTok::O(op)], 0);
             // left operand: at level m, followed by `op`
             lemma_up_operand(tb, *l, (tb.dl)(*l, op), s, i, m, true, op);
             assert(up_parse_e(tb, s, i, m) == up_climb(tb, s, *l, j, m));
@@ -183,6 +192,7 @@ pub proof fn lemma_up_case_tern<Op>(tb: UpTable<Op>, t: UT<Op>, s: Seq<UTok<Op>>
     lemma_up_len(tb, t);
     match t {
         UT::Tern(op, x, a, b) => {
+            lemma_up_at(s, i, up_print(tb, t), 0);   // bounds: 0 <= i, the tree lies within s
             let kk = (tb.kw)(op)->Some_0;
             let wl = up_wrap((tb.dl)(*x, op), up_print(tb, *x));
             let wa = up_wrap((tb.da)(*a, op), up_print(tb, *a));
@@ -193,13 +203,13 @@ pub proof fn lemma_up_case_tern<Op>(tb: UpTable<Op>, t: UT<Op>, s: Seq<UTok<Op>>
             lemma_up_split(s, i, wl + seq![UTok::O(op)], wa);
             lemma_up_split(s, i, wl, seq![UTok::O(op)]);
             let j = i + wl.len();
-            assert(s[j] == seq![UTok::O(op)][0]);
+            lemma_up_at(s, j, seq![UTok::O(op)], 0);
             lemma_up_operand(tb, *x, (tb.dl)(*x, op), s, i, m, true, op);
             assert(up_parse_e(tb, s, i, m) == up_climb(tb, s, *x, j, m));
             assert((wl + seq![UTok::O(op)]).len() == wl.len() + 1);
             let k = j + 1 + wa.len();
             assert((wl + seq![UTok::O(op)] + wa).len() == k - i);
-            assert(s[k] == seq![UTok::O(kk)][0]);
+            lemma_up_at(s, k, seq![UTok::O(kk)], 0);
             // first bound: at level prec(op) + 1, followed by the keyword (which binds no tighter than op)
             lemma_up_operand(tb, *a, (tb.da)(*a, op), s, j + 1, (tb.prec)(op) + 1, false, op);
             assert(up_climb(tb, s, *a, k, (tb.prec)(op) + 1) == Some((*a, k)));
@@ -222,10 +232,11 @@ pub proof fn lemma_up_case_not<Op>(tb: UpTable<Op>, t: UT<Op>, s: Seq<UTok<Op>>,
     lemma_up_len(tb, t);
     match t {
         UT::Not(x) => {
+            lemma_up_at(s, i, up_print(tb, t), 0);   // bounds: 0 <= i, the tree lies within s
             let wx = up_wrap((tb.dn)(*x), up_print(tb, *x));
             assert(up_print(tb, t) == seq![UTok::N] + wx);
             lemma_up_split(s, i, seq![UTok::N], wx);
-            assert(s[i] == seq![UTok::N][0]);
+            lemma_up_at(s, i, seq![UTok::N], 0);
             lemma_up_operand_not(tb, *x, (tb.dn)(*x), s, i + 1);
             let k = i + 1 + wx.len();
             assert(up_parse_e(tb, s, i + 1, tb.prec_not) == up_climb(tb, s, *x, k, tb.prec_not));
@@ -234,6 +245,28 @@ pub proof fn lemma_up_case_not<Op>(tb: UpTable<Op>, t: UT<Op>, s: Seq<UTok<Op>>,
         }
         _ => {}
     }
+}
+// a parenthesised tree: `(` at p, the tree's n tokens, `)` - three small steps, each its own query (no quantifier in the context)
+pub proof fn lemma_up_unwrap<Op>(s: Seq<UTok<Op>>, p: int, x: Seq<UTok<Op>>)
+    requires up_matches(s, p, seq![UTok::L] + x + seq![UTok::R])
+    ensures 0 <= p, p + x.len() + 2 <= s.len(), s[p] == UTok::<Op>::L, s[p + 1 + x.len()] == UTok::<Op>::R, up_matches(s, p + 1, x)
+{
+    lemma_up_split(s, p, seq![UTok::L] + x, seq![UTok::R]);
+    lemma_up_split(s, p, seq![UTok::L], x);
+    lemma_up_at(s, p, seq![UTok::<Op>::L], 0);
+    assert((seq![UTok::<Op>::L] + x).len() == x.len() + 1);
+    lemma_up_at(s, p + 1 + x.len(), seq![UTok::<Op>::R], 0);
+}
+pub proof fn lemma_up_climb_stops<Op>(tb: UpTable<Op>, s: Seq<UTok<Op>>, c: UT<Op>, j: int, m: int)
+    requires j < 0 || j >= s.len() || !(s[j] is O) || (tb.prec)(s[j]->O_0) < m
+    ensures up_climb(tb, s, c, j, m) == Some((c, j))
+{}
+pub proof fn lemma_up_paren<Op>(tb: UpTable<Op>, c: UT<Op>, s: Seq<UTok<Op>>, p: int, n: int, lvl: int)
+    requires 0 <= p, n >= 1, p + n + 2 <= s.len(), s[p] == UTok::<Op>::L, s[p + 1 + n] == UTok::<Op>::R,
+             up_parse_e(tb, s, p + 1, UP_MIN) == Some((c, p + 1 + n)),
+    ensures up_parse_e(tb, s, p, lvl) == up_climb(tb, s, c, p + n + 2, lvl)
+{
+    assert(up_parse_p(tb, s, p) == Some((c, p + n + 2)));
 }
 // an operand c of `op`, written bare or in parentheses at position p, parsed at level lvl (left operand: the enclosing level m, followed by
 // `op`; right operand: prec(op) + 1, followed by the enclosing tree's follower)
@@ -250,13 +283,10 @@ pub proof fn lemma_up_operand<Op>(tb: UpTable<Op>, c: UT<Op>, bare: bool, s: Seq
     if bare {
         lemma_up_main(tb, c, s, p, lvl);
     } else {
-        lemma_up_split(s, p, seq![UTok::L] + up_print(tb, c), seq![UTok::R]);
-        lemma_up_split(s, p, seq![UTok::L], up_print(tb, c));
-        assert(s[p] == seq![UTok::L][0]);
-        assert(s[p + 1 + n] == seq![UTok::R][0]);
+        lemma_up_unwrap(s, p, up_print(tb, c));
         lemma_up_main(tb, c, s, p + 1, UP_MIN);
-        assert(up_climb(tb, s, c, p + 1 + n, UP_MIN) == Some((c, p + 1 + n)));
-        assert(up_parse_p(tb, s, p) == Some((c, p + n + 2)));
+        lemma_up_climb_stops(tb, s, c, p + 1 + n, UP_MIN);
+        lemma_up_paren(tb, c, s, p, n, lvl);
     }
 }
 pub proof fn lemma_up_operand_not<Op>(tb: UpTable<Op>, c: UT<Op>, bare: bool, s: Seq<UTok<Op>>, p: int)
@@ -270,13 +300,10 @@ pub proof fn lemma_up_operand_not<Op>(tb: UpTable<Op>, c: UT<Op>, bare: bool, s:
     if bare {
         lemma_up_main(tb, c, s, p, tb.prec_not);
     } else {
-        lemma_up_split(s, p, seq![UTok::L] + up_print(tb, c), seq![UTok::R]);
-        lemma_up_split(s, p, seq![UTok::L], up_print(tb, c));
-        assert(s[p] == seq![UTok::L][0]);
-        assert(s[p + 1 + n] == seq![UTok::R][0]);
+        lemma_up_unwrap(s, p, up_print(tb, c));
         lemma_up_main(tb, c, s, p + 1, UP_MIN);
-        assert(up_climb(tb, s, c, p + 1 + n, UP_MIN) == Some((c, p + 1 + n)));
-        assert(up_parse_p(tb, s, p) == Some((c, p + n + 2)));
+        lemma_up_climb_stops(tb, s, c, p + 1 + n, UP_MIN);
+        lemma_up_paren(tb, c, s, p, n, tb.prec_not);
     }
 }
 // THE THEOREM: the engine's parser recovers exactly the tree that was printed
@@ -285,5 +312,6 @@ pub proof fn theorem_unparse<Op>(tb: UpTable<Op>, t: UT<Op>)
     ensures up_parse_e(tb, up_print(tb, t), 0, UP_MIN) == Some((t, up_print(tb, t).len() as int))
 {
     lemma_up_len(tb, t);
+    lemma_up_self(up_print(tb, t));
     lemma_up_main(tb, t, up_print(tb, t), 0, UP_MIN);
 }
